@@ -5,7 +5,7 @@ From Coq Require Import List NArith ZArith Bool QArith Reals.
 From Flocq Require Import Core IEEE754.BinarySingleNaN.
 From Cedar Require Import Lib.Bytes gen.Consts Model.Msg Model.Double
      Proofs.C14Reader Proofs.C14Writer Proofs.C14Layout Proofs.C14Roundtrip
-     Proofs.C14DoubleExact Proofs.C14Double Proofs.C14DoubleReal.
+     Proofs.C14DoubleExact Proofs.C14Double Proofs.C14DoubleReal Proofs.C14Api.
 Import ListNotations.
 Local Open Scope Z_scope.
 
@@ -279,3 +279,14 @@ Theorem C14_double_precision_partial_Z :
     (m * 2147483647 - k * 2 ^ 53) * 2 ^ 30 <= m * 2147483647.
 Proof. exact double_precision_exact. Qed.
 Print Assumptions C14_double_precision_partial_Z.
+
+(* ======================================================================== *)
+(* Coverage of the typed entry points.  gen/FactsC14.v lists every exported method of
+   message.Message found in /repo's current source, the methods the C14 harness drives
+   (Put*, Get*, Code* in both directions, PutClassAdRaw[Bytes], FinishMessage - the run
+   fails if one of them is never called) and those covered elsewhere with the reason.
+   No method is left over, the tables name only existing methods, and none is on both.  *)
+Theorem C14_entry_points_covered :
+  uncovered_methods = [] /\ stale_entries = [] /\ doubly_listed = [].
+Proof. exact entry_points_covered. Qed.
+Print Assumptions C14_entry_points_covered.
